@@ -992,3 +992,29 @@ func inRepeat(c *Ctx, st *State, fn *ssa.Function, args []Value) (*State, Value)
 		return r
 	})
 }
+
+// mergeAltsAny merges guarded values of any kind (guards exclusive): scalars become ite chains, structures are merged
+// fieldwise, everything else becomes one normalised union (a single mkUnion instead of n pairwise merges).
+func (c *Ctx) mergeAltsAny(in []Alt) Value {
+	if len(in) == 0 {
+		return nil
+	}
+	if len(in) == 1 {
+		return in[0].v
+	}
+	switch in[0].v.(type) {
+	case *Term:
+		r := in[len(in)-1].v.(*Term)
+		for i := len(in) - 2; i >= 0; i-- {
+			r = c.tt.Ite(in[i].g, in[i].v.(*Term), r)
+		}
+		return r
+	case *Struct, *Array, *Tuple:
+		r := in[len(in)-1].v
+		for i := len(in) - 2; i >= 0; i-- {
+			r = c.merge(in[i].g, in[i].v, r)
+		}
+		return r
+	}
+	return c.mkUnion(append([]Alt(nil), in...))
+}
